@@ -106,9 +106,25 @@ def impl_send(parts, ctx=None, case=None, judged=True):
     return outs[0] if isinstance(outs[0], bytes) else None
 
 
+class FlagSocket(ScriptSocket):
+    """A recv() on the exhausted script is what BLOCKS on a real connection (the peer has sent everything it is
+    going to send and waits for the reply): it is flagged, and then answered with end of stream so that the run ends."""
+    blocked = 0
+
+    def recv(self, n=4096):
+        if not self.chunks:
+            self.blocked += 1
+        return ScriptSocket.recv(self, n)
+
+
+LAST_RECV = dict(blocked=0)
+
+
 def impl_recv(buf, chunks, max_size=None):
-    """-> (0, data, unread bytes, recv calls) | (1,) ConnectionLost | (2, unread bytes) MessageTooBig | (3, text) anything else raised"""
-    sock = ScriptSocket(chunks)
+    """-> (0, data, unread bytes, recv calls) | (1,) ConnectionLost | (2, unread bytes) MessageTooBig | (3, text) anything else raised.
+    (1,) means: recv() was called when nothing more was going to arrive (LAST_RECV['blocked'] counts those calls)."""
+    sock = FlagSocket(chunks)
+    LAST_RECV['sock'] = sock
     io = IO(sock, ('h', 25))
     io.recv_buffer = buf
     try:
@@ -236,6 +252,8 @@ def classify(kind, case, got, want):
         return 'c05:raw-stream'
     if case['message'] == b'' and case['trailing'] != b'':
         return 'c05:empty-message-followed-by-bytes'
+    if got[0] == 1:
+        return 'c05:reads-past-end-of-data'       # the whole stream, end-of-data line included, was delivered
     if got[0] != 0:
         return 'c05:reader-raises'
     if got[1] != want[1]:
@@ -535,7 +553,7 @@ def sb_diff(got, want):
     """human-size description of got != want (reader outcomes)"""
     if got[0] != 0:
         return 'DataReader.recv() raised %s; expected %d bytes of message and %r left unread' % (
-            {1: 'ConnectionLost (no end-of-data line seen)', 2: 'MessageTooBig'}.get(got[0], got[-1]), len(want[1]), want[2][:60])
+            {1: 'ConnectionLost: it called recv() when everything sent had been delivered and nothing more was coming (a real connection BLOCKS there)', 2: 'MessageTooBig'}.get(got[0], got[-1]), len(want[1]), want[2][:60])
     what = []
     if got[1] != want[1]:
         i = next((j for j in range(min(len(got[1]), len(want[1]))) if got[1][j] != want[1][j]), min(len(got[1]), len(want[1])))
@@ -655,7 +673,7 @@ def run_size_boundary(ctx):
                 model_recv.append((case, buf, chunks, got))
             want = (0, expected(m), t, need_calls(buf, chunks, len(wire)))
             if got != want:
-                base = ('reader-raises' if got[0] != 0 else
+                base = ('reads-past-end-of-data' if got[0] == 1 else 'reader-raises' if got[0] != 0 else
                         'early-end-of-data' if (len(got[1]) < len(want[1]) and want[1].startswith(got[1])) else
                         'content-altered' if got[1] != want[1] else
                         'trailing-bytes-altered' if got[2] != want[2] else 'reads-past-end-of-data')
@@ -808,6 +826,8 @@ def big_judge(ctx, d, parts, outs, state):
             continue
         if got[0] == 0 and len(w) == len(ref) and not w.startswith(ref[:24]) and w.find(ref[:24]) > 0:
             base = 'pieces-out-of-order'
+        elif got[0] == 1:
+            base = 'reads-past-end-of-data'
         elif got[0] != 0:
             base = 'reader-raises'
         elif len(got[1]) < len(expected(m)) and expected(m).startswith(got[1]):
@@ -857,6 +877,133 @@ def run_big_parts(ctx):
              'stuffing of the concatenation in order (reading them back costs the real reader seconds) and read back when it did not' % (n, sizes, BIG_SHAPES, BIG_LAYOUTS))
 
 
+# ------------------------------------------------------------ wire length aligned with the receive buffer
+# IO.raw_recv asks the socket for 4096 bytes.  Messages are solved for so that the WIRE (stuffed content + end
+# marker) is exactly off + k*4096 (+-1 controls) bytes; it is read as one piece of `off` bytes (if any) and then
+# full 4096-byte recv() results, so that the end-of-data line ends a full buffer.  Pipelined bytes: none (the
+# client waits for the reply: a further recv() would block for ever - FlagSocket), arriving LATER in a recv() of
+# their own, or contiguous (control).
+WA_KINDS = ['crlf-end', 'no-crlf', 'bare-lf', 'dots8', 'run']
+WA_BLOCK = {'crlf-end': b'y' * 70 + b'\r\n', 'no-crlf': b'y' * 70 + b'\r\n', 'bare-lf': b'line\nnext\r\n',
+            'dots8': b'.dot line\r\n..\r\n\xe9\xff\x00 8-bit\r\n.\xfe\r\nplain\r\n', 'run': b''}
+
+
+def wa_message(kind, n_pad, n_blocks):
+    end = {'crlf-end': b'\r\n', 'no-crlf': b'', 'bare-lf': b'\n', 'dots8': b'\r\n', 'run': b'\r\n'}[kind]
+    return WA_BLOCK[kind] * n_blocks + b'p' * n_pad + end
+
+
+def wa_solve(kind, target):
+    """message of this kind whose reference wire is exactly `target` bytes (None if too small)"""
+    blk = WA_BLOCK[kind]
+    nb = max(0, (target - 300) // len(ref_wire(blk * 4))) * 4 if blk else 0
+    nb = max(0, nb - 4)
+    pad = 1
+    for _ in range(4):
+        pad += target - len(ref_wire(wa_message(kind, pad, nb)))
+        if pad < 1:
+            return None
+        m = wa_message(kind, pad, nb)
+        if len(ref_wire(m)) == target:
+            return m
+    return None
+
+
+def wa_case(d):
+    """-> (message, parts, trailing, recv_buffer, chunks, wire) for a description; None if unsolvable"""
+    target = d['off'] + d['k'] * 4096 + d['delta']
+    m = wa_solve(d['kind'], target)
+    if m is None:
+        return None
+    if d['parts'] == 'two' and b'\n' in m[:-1]:
+        cut = m.index(b'\n', len(m) // 2 if b'\n' in m[len(m) // 2:-1] else 0) + 1
+        parts = [m[:cut], m[cut:]]
+    else:
+        parts = [m]
+    wire = impl_send(parts)
+    if wire is None:
+        return m, parts, b'', b'', [], None
+    t = b'' if d['trailing'] == 'none' else b'QUIT\r\n'
+    head = [wire[:d['off']]] if d['off'] else []
+    rest = wire[d['off']:] + (t if d['trailing'] == 'same' else b'')
+    chunks = head + [rest[i:i + 4096] for i in range(0, len(rest), 4096)]
+    if d['trailing'] == 'later':
+        chunks.append(t)
+    buf = b''
+    if d['preload'] and chunks:
+        buf, chunks = chunks[0], chunks[1:]
+    return m, parts, t, buf, chunks, wire
+
+
+def wa_judge(ctx, d, with_model=None):
+    r = wa_case(d)
+    if r is None:
+        ctx.count('wire-aligned:unsolved')
+        return None
+    m, parts, t, buf, chunks, wire = r
+    if wire is None:
+        return 'c05:sender-raises', 'DataSender raised'
+    got = impl_recv(buf, list(chunks))
+    blocked = LAST_RECV['sock'].blocked
+    want = (0, expected(m), t, need_calls(buf, chunks, len(wire)))
+    if with_model is not None:
+        with_model.append((d, buf, chunks, got))
+    if got == want:
+        return None
+    if got[0] == 1 or (got[0] == 0 and got[1:3] == want[1:3]):
+        base = 'reads-past-end-of-data'
+    elif got[0] != 0:
+        base = 'reader-raises'
+    elif got[1] != want[1]:
+        base = 'content-altered'
+    else:
+        base = 'trailing-bytes-altered'
+    return ('c05:' + base,
+            'message of %d bytes (%s) whose wire is %d bytes = %d + %d*4096 %+d, read as %s%d recv() results of lengths %r%s, pipelined bytes %s: %s%s' % (
+                len(m), d['kind'], len(wire), d['off'], d['k'], d['delta'], 'recv_buffer (%d bytes) + ' % len(buf) if buf else '', len(chunks),
+                [len(c) for c in chunks[:4]], ' ...' if len(chunks) > 4 else '',
+                {'none': 'none (the client waits for the reply)', 'later': 'QUIT arriving in a later recv()', 'same': 'QUIT right behind the message'}[d['trailing']],
+                sb_diff(got, want),
+                '; %d recv() call(s) were made when nothing more was going to arrive' % blocked if blocked else ''))
+
+
+def run_wire_aligned(ctx):
+    quick = ctx.quick
+    ks = [1, 2, 3, 16] if quick else [1, 2, 3, 4, 16, 17, 50]
+    model_jobs = []
+    n = 0
+    for k in ks:
+        for kind in WA_KINDS:
+            if kind == 'run' and k > (3 if quick else 16):
+                continue                      # LF-free: 13 ms per full buffer in the code under test
+            for delta in (0, -1, 1):
+                for off in (0, 1000):
+                    for trailing in ('none', 'later', 'same'):
+                        for parts in ('one', 'two'):
+                            for preload in (False, True):
+                                if (parts == 'two' or preload) and (delta != 0 or off):
+                                    continue          # controls stay simple
+                                d = dict(stream='wire-aligned', k=k, delta=delta, off=off, kind=kind, trailing=trailing, parts=parts, preload=preload)
+                                r = wa_judge(ctx, d, model_jobs if k <= 2 else None)
+                                n += 1
+                                ctx.evaluated(('wire-aligned', repr(sorted(d.items()))), nontrivial=True)
+                                ctx.count('wire-aligned:k=%d' % k)
+                                ctx.count('wire-aligned:trailing=' + trailing)
+                                if r is not None:
+                                    ctx.fail(r[0], d, r[1])
+    for i in range(0, len(model_jobs), 1000):
+        part = model_jobs[i:i + 1000]
+        for (d, buf, chunks, got), o in zip(part, ctx.model.batch('c05_recv', [[None, x[1], x[2]] for x in part])):
+            mo = model_recv_out(o, chunks)
+            if got != mo:
+                ctx.mismatch('recv-wire-aligned', d, sb_summary(got), sb_summary(mo))
+    ctx.sample(dict(kind='wire-aligned', k=ks, kinds=WA_KINDS, cases=n), cap=14)
+    ctx.note('wire-aligned stream: %d cases; messages solved for so that the wire (stuffed content + end marker) is off + k*4096 (+-1) bytes, k in %r, off in {0, 1000}, '
+             'kinds %r, read in full 4096-byte recv() results (first buffer optionally pre-loaded), pipelined bytes none / in a later recv() / contiguous; a recv() issued when '
+             'nothing more is going to arrive is flagged by the fake socket (a real connection blocks) - key c05:reads-past-end-of-data; model compared for k <= 2'
+             % (n, ks, WA_KINDS))
+
+
 def run_maxsize(ctx, count):
     """model<->code only (never judged): the MessageTooBig path of recv_piece"""
     rng = ctx.rng
@@ -897,6 +1044,7 @@ def run(ctx):
         run_reuse(ctx, 150)
         run_size_boundary(ctx)
         run_big_parts(ctx)
+        run_wire_aligned(ctx)
         pass  # the size limit (MessageTooBig) is modelled and judged by C09 (reader after the D13 repair)
     else:
         run_exhaustive(ctx, maxlen=8, cut_all_upto=6, three_upto=5)
@@ -905,6 +1053,7 @@ def run(ctx):
         run_reuse(ctx, 3000)
         run_size_boundary(ctx)
         run_big_parts(ctx)
+        run_wire_aligned(ctx)
         pass  # see C09
     ctx.note('max_size is None in every judged case; the MessageTooBig path is compared model<->code only (property C09 judges it)')
     ctx.note('a sender part that starts with "." in the middle of a line gets that dot doubled by DataSender._process_part '
@@ -982,6 +1131,20 @@ def replay(ctx, case):
         return replay_size_boundary(ctx, c, unhex)
     if c.get('stream') == 'big-part':
         return replay_big_part(ctx, c)
+    if c.get('stream') == 'wire-aligned':
+        d = dict((k, c[k]) for k in ('stream', 'k', 'delta', 'off', 'kind', 'trailing', 'parts', 'preload'))
+        print('case                : %r' % d)
+        r = wa_case(d)
+        m, parts, t, buf, chunks, wire = r
+        print('message             : %d bytes %r ... %r, parts of lengths %r' % (len(m), m[:30], m[-12:], [len(x) for x in parts]))
+        print('wire                : %d bytes (%d + %d*4096 %+d), ends %r' % (len(wire), d['off'], d['k'], d['delta'], wire[-8:]))
+        print('io.recv_buffer      : %d bytes; socket.recv() results of lengths %r' % (len(buf), [len(x) for x in chunks]))
+        v = wa_judge(ctx, d)
+        print('verdict             : %s' % ('as expected: recv() == the message%s, %r left unread, %d socket reads' % (
+            '' if expected(m) == m else ' + CRLF', t, need_calls(buf, chunks, len(wire))) if v is None else '%s - %s' % v))
+        if ctx.model and d['k'] <= 2:
+            print('model               : %r' % (sb_summary(model_recv_out(ctx.model.call('c05_recv', [None, buf, chunks]), chunks)),))
+        return 0
     if 'emission_order' in c and 'chunks' not in c:
         print_emissions([unhex(x) for x in c['parts']], c['emission_order'])
         return 0
